@@ -28,7 +28,7 @@ def draw_timings(r):
         "REPETITIONS_MAX": r.randint(0, 4),
         "REPETITIONS_BASE_DELAY": r.choice([0.01, 0.1, 0.002]),
         "CYCLIC_OFFER_DELAY": r.choice([0, 0.5, 1, 2]),
-        "ANNOUNCE_TTL": r.choice([3, 3, INF_TTL]),
+        "ANNOUNCE_TTL": r.choice([3, 3, INF_TTL, 1]),  # 1: shorter than some cyclic periods (legal, the library only warns)
         "SEND_COLLECTION_TIMEOUT": r.choice([0, 0.005, 0.005, 0.05]),
         "REQUEST_RESPONSE_DELAY_MIN": rlo,
         "REQUEST_RESPONSE_DELAY_MAX": rhi,
@@ -72,6 +72,12 @@ def gen_plan(pid, seed, idx, profile):
     if r.random() < 0.25 and n > 1:
         insts[-1]["timings"] = {"CYCLIC_OFFER_DELAY": 0 if timings["CYCLIC_OFFER_DELAY"] else 1}
     cfg = {"instances": insts, "timings": timings, "sock_flip": r.choice([0, 0.5, 1.0])}
+    if r.random() < 0.15:
+        # the timings were different while the stack was constructed and were set to these values afterwards, before
+        # anything was started: what counts is the value when it is used
+        cfg["ctor_timings"] = {"SEND_COLLECTION_TIMEOUT": r.choice([0, 0.005, 0.05, 0.2]), "CYCLIC_OFFER_DELAY": r.choice([0, 0.5, 2]), "REQUEST_RESPONSE_DELAY_MAX": r.choice([0.0, 0.1])}
+        if cfg["ctor_timings"]["REQUEST_RESPONSE_DELAY_MAX"] < timings["REQUEST_RESPONSE_DELAY_MIN"]:
+            del cfg["ctor_timings"]["REQUEST_RESPONSE_DELAY_MAX"]
     u = r.random()
     if u < 0.2:
         cfg["uniform"] = [0.0]
